@@ -6,7 +6,7 @@ use crate::rng::Rng;
 use crate::term::*;
 use molt::types::*;
 
-const KEYS: [&str; 11] = ["a", "b", "a b", "{", "", "c", "}", "x}y", "a\x0bb", "k\\", "#"];
+const KEYS: [&str; 14] = ["a", "b", "a b", "{", "", "c", "}", "x}y", "a\x0bb", "k\\", "#", "}{", "\\ {", "#x"];
 const VARS: [&str; 3] = ["d", "e", "f"];
 const LITS: [&str; 8] = ["", "a 1", "a 1 a 2", "a", "a {b 1 c 2}", "a {b {c 3}} x y", "{a b} 1 { 2", "a  1   b 2"];
 
